@@ -1250,6 +1250,18 @@ class EqEval:
                     if (0, g) in fs and (1, g) in fs:
                         f = g
             if f is not None:
+                # adaptors that drop elements compare a PART of the field: implied by equality of the field, not equivalent to it
+                LOSSY = ("filter", "skip", "take", "step_by", "skip_while", "take_while", "filter_map", "dedup", "last", "nth", "peekable_skip")
+                OPAQUE = ("map", "flat_map", "scan", "fold", "chain", "rev", "cycle")
+                names = set()
+                for side in (args[:2] if cal.endswith("::eq") else args[:1]):
+                    for x in walk(side):
+                        if x.get("k") == "Call" and (callee(x) or "").startswith("core::iter::"):
+                            names.add((callee(x) or "").rsplit("::", 1)[-1])
+                if names & set(LOSSY):
+                    return True if self.asg[f] else self.freevar(e)
+                if names & set(OPAQUE) and cal.endswith("::eq"):
+                    raise _EqUnknown("element-wise comparison through %s" % sorted(names & set(OPAQUE)))
                 return self.asg[f]
             raise _EqUnknown("all() over something else")
         if cal == "core::iter::traits::iterator::Iterator::any":
@@ -1444,7 +1456,30 @@ def r17_eq_fields(facts):
                         got_ = [var_of(peel(a)) for a in n_["args"][2:]]
                         if all(g in tol for g in got_) and got_ != tol:
                             swapped = (nb, n_, got_)
-            if swapped:
+            # every tolerance this function receives decides the per-element comparison, in its own position
+            POS = {"abs_diff_eq": 1, "abs_diff_ne": 1, "relative_eq": 2, "relative_ne": 2, "ulps_eq": 1, "ulps_ne": 1}
+            unused, misplaced = [], []
+            if not swapped:
+                for i_, t_ in enumerate(tol):
+                    refs, placed = 0, False
+                    for nb in facts.nested(b):
+                        for n_ in walk(facts.root(nb)):
+                            if n_.get("k") in ("VarRef", "UpvarRef") and n_.get("v") == t_:
+                                refs += 1
+                            if n_.get("k") == "Call" and len(n_.get("args") or []) >= 3:
+                                m_ = (callee(n_) or "").rsplit("::", 1)[-1]
+                                if m_ in POS and ((callee(n_) or "").startswith("approx::") or "as approx::" in (resolved(n_) or "")):
+                                    if len(n_["args"]) > 2 + i_ and i_ < POS[m_] and var_of(peel(n_["args"][2 + i_])) == t_:
+                                        placed = True
+                    if refs == 0:
+                        unused.append(t_)
+                    elif not placed:
+                        misplaced.append(t_)
+            if unused:
+                c.bad(inst + "#tolerances", where, "%s never reads its `%s` argument: the outcome cannot depend on the tolerance the caller asked for" % (b["name"], unused[0].split("#")[0]))
+            elif misplaced:
+                c.unk(inst + "#tolerances", where, "`%s` is used, but not as the same tolerance of a per-element approx comparison (form not read)" % misplaced[0].split("#")[0])
+            elif swapped:
                 c.bad(inst + "#tolerances", loc(swapped[0], swapped[1]), "the per-element %s receives the tolerances in another order than this function does (%s for %s)"
                       % (b["name"], [g.split("#")[0] for g in swapped[2]], [t_.split("#")[0] for t_ in tol]))
             elif tol:
